@@ -92,8 +92,19 @@ def r81(e: Engine, rep: Report):
                 return bool(defs) and all(is_wrap(d, depth + 1)
                                           for d in defs)
             return False
+        # in the class that owns the receive buffer every replacement of
+        # the socket after construction is a swap, whatever produced the new
+        # socket (a handshake handed in as a callable, a helper)
+        owns_buffer = f.name != '__init__' and any(
+            isinstance(a, ast.Assign) and any(
+                isinstance(t, ast.Attribute) and t.attr == 'recv_buffer' and
+                isinstance(t.value, ast.Name) and t.value.id == 'self'
+                for t in a.targets)
+            for m2 in f.cls.methods.values() if m2.name == '__init__'
+            for a in walk_own(m2.node))
         for n in walk_own(f.node):
-            if isinstance(n, ast.Assign) and is_wrap(n.value):
+            if isinstance(n, ast.Assign) and (is_wrap(n.value) or
+                                              owns_buffer):
                 for t in n.targets:
                     if isinstance(t, ast.Attribute) and \
                             isinstance(t.value, ast.Name) and \
